@@ -798,7 +798,7 @@ def _part(arg):
             st["outcomes"][key] = st["outcomes"].get(key, 0) + 1
             for clause, msg in fails:
                 st["fails"].append((clause, fmt, {**arch, "h": h}, msg))
-        if len(st["samples"]) < 2 and st["archives"] in (2, 40):
+        if len(st["samples"]) < 2 and (res[0][2][2] >= 1 or len(res[0][1]) > 0) and st["archives"] >= 2 + 38 * len(st["samples"]):
             names_ = build(arch, "$SB", seed)[2]["names"]
             st["samples"].append({"part": part, "archive": arch, "member_names": [x if len(x) < 80 else x[:30] + f"...({len(x)} chars)" for x in names_],
                                   "histories": [[h, repr(oc)] for h, _, oc, _, _ in res][:6]})
@@ -873,7 +873,12 @@ def run(ctx):
         "/ directory-attribute / no-streams), where the name-to-bytes mapping is undefined",
         "whether a visible member produces a result, and which exception a hostile or corrupt archive raises, is not judged "
         "here (C10 / C14); a generator that swallows throw() is closed afterwards and only confinement/residue are judged",
-        "os.stat/os.path.exists raise no audit event: existence probes of host paths are not observed, only opens/listings",
+        "os.stat/os.path.exists raise no audit event: existence probes of host paths are not observed, only opens/listings; "
+        "os.mkdir of a path that already exists (os.makedirs(exist_ok=True) probing a parent) fails with EEXIST, creates "
+        "nothing and is not counted as a write",
+        "a generator that swallows generator.throw() and yields the next result is recorded in the outcome class only",
+        "truncated archives are every proper prefix of the seed-0 rendering of 7 base archives (so that the set of cases does "
+        "not depend on VERIF_SEED)",
         "the read whitelist contains /repo and /verif: no generated member name points there (host names are only the canaries)",
     ]
     return {"coverage": cov, "failures": fails, "harness_errors": herr, "assumptions": assumptions}
